@@ -175,7 +175,7 @@ theorem ev_combine_fail (h : Ev env nsk g (pre ctx p) none b) : Ev env ctx (.com
 
 /-! ### leaves -/
 
-theorem stripPrefix_append (s rest : List Char) : stripPrefix s (s ++ rest) = some rest := by
+theorem stripPrefix_appendE (s rest : List Char) : stripPrefix s (s ++ rest) = some rest := by
   induction s with
   | nil => cases rest <;> rfl
   | cons a s ih => simp [stripPrefix, ih]
@@ -198,15 +198,15 @@ theorem skipWs_blanks (k : Nat) (r : List Char) : skipWs (List.replicate k ' ' +
     simp only [List.replicate_succ, List.cons_append, skipWs, List.dropWhile_cons] at ih ⊢
     simp [isWs, ih]
 
-theorem skipIgn_blanks (k : Nat) (r : List Char) : skipIgn (List.replicate k ' ' ++ r) = skipIgn r := by
+theorem skipIgn_blanksE (k : Nat) (r : List Char) : skipIgn (List.replicate k ' ' ++ r) = skipIgn r := by
   unfold skipIgn
   simp only [skipWs_blanks]
 
-theorem skipIgn_blanks_cons (k : Nat) (c : Char) (r : List Char) (h : isWs c = false) (h2 : c ≠ '#') :
+theorem skipIgn_blanks_consE (k : Nat) (c : Char) (r : List Char) (h : isWs c = false) (h2 : c ≠ '#') :
     skipIgn (List.replicate k ' ' ++ c :: r) = c :: r := by
-  rw [skipIgn_blanks, skipIgn_cons_of c r h h2]
+  rw [skipIgn_blanksE, skipIgn_cons_of c r h h2]
 
-theorem skipIgn_nil : skipIgn [] = [] := rfl
+theorem skipIgn_nilE : skipIgn [] = [] := rfl
 
 /-- a literal after `k` blanks -/
 theorem ev_lit (k : Nat) (c : Char) (s rest : List Char) (h : isWs c = false) (h2 : c ≠ '#') :
@@ -216,9 +216,9 @@ theorem ev_lit (k : Nat) (c : Char) (s rest : List Char) (h : isWs c = false) (h
   obtain ⟨f, rfl⟩ : ∃ f, fuel = f + 1 := ⟨fuel - 1, by omega⟩
   have hp : pre sk (P (List.replicate k ' ' ++ (c :: s ++ rest))) = P (c :: s ++ rest) := by
     simp only [pre, if_true]
-    rw [List.cons_append, skipIgn_blanks_cons k c _ h h2]
+    rw [List.cons_append, skipIgn_blanks_consE k c _ h h2]
   simp only [run, hp]
-  rw [stripPrefix_append]
+  rw [stripPrefix_appendE]
   simp
 
 /-- a literal inside `Combine` (nothing is skipped) -/
@@ -228,7 +228,7 @@ theorem ev_lit_nsk (s rest : List Char) :
   obtain ⟨f, rfl⟩ : ∃ f, fuel = f + 1 := ⟨fuel - 1, by omega⟩
   have hp : pre nsk (P (s ++ rest)) = P (s ++ rest) := by simp [pre]
   simp only [run, hp]
-  rw [stripPrefix_append]
+  rw [stripPrefix_appendE]
   simp
 
 /-- a literal fails when the next character differs from its first one -/
@@ -258,7 +258,7 @@ theorem ev_lit_fail_past (s : List Char) (hp : (pre ctx p).past = true) : Ev env
   | zero => simp only [run]
   | succ f => simp only [run, hp, if_true]
 
-theorem pre_past (ctx : Ctx) (p : Pos) : (pre ctx p).past = p.past := by
+theorem pre_pastE (ctx : Ctx) (p : Pos) : (pre ctx p).past = p.past := by
   unfold pre; split <;> rfl
 
 /-- `Word` fails when the next character is not an initial character -/
@@ -269,7 +269,7 @@ theorem ev_word_fail (init body : List Char) (c : Char) (r : List Char) (hp : (p
   | zero => simp only [run]
   | succ f => simp only [run, hp, hc]; simp
 
-theorem takeWhile_body (body ds : List Char) (c : Char) (r : List Char) (hds : ∀ x ∈ ds, body.contains x = true)
+theorem takeWhile_bodyE (body ds : List Char) (c : Char) (r : List Char) (hds : ∀ x ∈ ds, body.contains x = true)
     (hc : body.contains c = false) :
     (ds ++ c :: r).takeWhile (fun x => body.contains x) = ds := by
   induction ds with
@@ -287,7 +287,7 @@ theorem run_word (init body : List Char) (d : Char) (ds : List Char) (c : Char) 
     Ev env ctx (.word init body) p (some ({ rest := c :: r, past := past }, [.tok (String.ofList (d :: ds))])) 1 := by
   intro fuel hf
   obtain ⟨f, rfl⟩ : ∃ f, fuel = f + 1 := ⟨fuel - 1, by omega⟩
-  simp only [run, hp, List.cons_append, hd, if_true, takeWhile_body body ds c r hds hc]
+  simp only [run, hp, List.cons_append, hd, if_true, takeWhile_bodyE body ds c r hds hc]
   simp
 
 /-- `LineEnd` at a line feed -/
@@ -303,13 +303,13 @@ theorem ev_lineEnd_nl (rest : List Char) :
 theorem ev_lineEnd_eof : Ev env sk .lineEnd (P []) (some (Pend, [])) 1 := by
   intro fuel hf
   obtain ⟨f, rfl⟩ : ∃ f, fuel = f + 1 := ⟨fuel - 1, by omega⟩
-  simp [run, pre, skipIgn_nil]
+  simp [run, pre, skipIgn_nilE]
 
 theorem ev_lineEnd_past : Ev env sk .lineEnd Pend none 0 := by
   intro fuel _
   cases fuel with
   | zero => simp only [run]
-  | succ f => simp [run, pre, skipIgn_nil]
+  | succ f => simp [run, pre, skipIgn_nilE]
 
 /-- `LineEnd` fails before any other character -/
 theorem ev_lineEnd_fail (c : Char) (r : List Char) (hp : (pre ctx p).rest = c :: r) (hc : c ≠ '\n') :
@@ -332,7 +332,7 @@ theorem ev_stringStart : Ev env ctx .stringStart p (some (p, [])) 1 := by
 theorem ev_stringEnd_end : Ev env sk .stringEnd Pend (some (Pend, [])) 1 := by
   intro fuel hf
   obtain ⟨f, rfl⟩ : ∃ f, fuel = f + 1 := ⟨fuel - 1, by omega⟩
-  simp [run, pre, skipIgn_nil]
+  simp [run, pre, skipIgn_nilE]
 
 /-! ### the tail of every statement and the document frame -/
 
